@@ -21,6 +21,9 @@ pub struct SamParams {
     pub long_fields: bool,
     /// CRAM-safe sub-model: sequences derived from a reference, CIGAR consistent, limited aux
     pub cram_safe: bool,
+    /// every record mapped (needs n_refs >= 1)
+    #[serde(default)]
+    pub all_mapped: bool,
 }
 
 #[derive(Clone, Debug)]
@@ -65,6 +68,7 @@ pub fn gen_params(rng: &mut Rng, size_class: u8) -> SamParams {
         aux: rng.chance(3, 4),
         long_fields: rng.chance(1, 6),
         cram_safe: false,
+        all_mapped: false,
     }
 }
 
@@ -282,7 +286,7 @@ pub fn generate(p: &SamParams) -> SamModel {
     // references
     let mut refs: Vec<(String, Vec<u8>)> = Vec::new();
     for i in 0..p.n_refs {
-        let len = if p.cram_safe { 200 + rng.usize_below(2000) } else { 50 + rng.usize_below(100_000) };
+        let len = if p.cram_safe { 1200 + rng.usize_below(2000) } else { 50 + rng.usize_below(100_000) };
         let seq = if p.cram_safe {
             (0..len).map(|_| *rng.pick(BASES4)).collect()
         } else {
@@ -317,7 +321,7 @@ pub fn generate(p: &SamParams) -> SamModel {
     // records: (ref index or None, pos, text)
     let mut recs: Vec<(usize, i64, String)> = Vec::with_capacity(p.n_records);
     for _ in 0..p.n_records {
-        let mapped = !refs.is_empty() && rng.chance(5, 6);
+        let mapped = !refs.is_empty() && (rng.chance(5, 6) | p.all_mapped);
         let read_len = if p.max_len == 0 { 0 } else if rng.chance(1, 10) { 0 } else { 1 + rng.usize_below(p.max_len) };
         let read_len = if p.cram_safe && read_len == 0 { 1 + rng.usize_below(p.max_len.max(1)) } else { read_len };
         let name = gen_name(&mut rng, p.long_fields);
